@@ -124,10 +124,41 @@ def do_detect(names, tier="quick"):
     json.dump(results, open(os.path.join(HOME, "out", "audit_last.json"), "w"), indent=1)
     caught = [n for n, r in results.items() if any(isinstance(v, dict) and v.get("rc") == 1 for v in r.values())]
     print("AUDIT: %d/%d seeded changes detected" % (len(caught), len(results)))
+    write_status(results)
     missed = sorted(set(results) - set(caught))
     if missed:
         print("MISSED: " + " ".join(missed))
     return results
+
+
+def write_status(results):
+    """seeded/STATUS.md: which check caught which seeded change in the last audit run (merged with earlier runs)."""
+    path = os.path.join(SEEDED, "status.json")
+    try:
+        allr = json.load(open(path))
+    except Exception:
+        allr = {}
+    allr.update(results)
+    json.dump(allr, open(path, "w"), indent=1, sort_keys=True)
+    lines = ["# Seeded changes and the checks that catch them", "",
+             "Regenerated by `python -m vf.audit detect`; each change is applied to a scratch worktree of /repo HEAD and the",
+             "designated check's quick tier must exit 1.", "", "| change | property | what it does | needs | detected by | first clause |", "|---|---|---|---|---|---|"]
+    for name in sorted(allr):
+        try:
+            meta = json.load(open(os.path.join(SEEDED, name, "meta.json")))
+        except Exception:
+            continue
+        r = allr[name]
+        det = [p for p, v in r.items() if isinstance(v, dict) and v.get("rc") == 1]
+        first = ""
+        for p in det:
+            f = r[p].get("first", "")
+            i = f.find("(")
+            first = f[i + 1:i + 60].split(" ")[0] if i >= 0 else ""
+            break
+        lines.append("| %s | %s | %s | %s | %s | %s |" % (name, meta.get("property", ""), str(meta.get("summary", "")).replace("|", "/")[:160],
+                                                        str(meta.get("needs", "")).replace("|", "/")[:140], ", ".join(det) or "**MISSED**", first))
+    open(os.path.join(SEEDED, "STATUS.md"), "w").write("\n".join(lines) + "\n")
 
 
 def main(tier="quick", seed=0):
